@@ -106,6 +106,23 @@ func c19Exec(op string) string {
 				break
 			}
 		}
+		// the list form: encode every Map first, decode the kept encodings afterwards
+		var blobs [][]byte
+		for _, m := range ms {
+			g, gerr := m.Gob()
+			if gerr != nil {
+				blobs = nil
+				break
+			}
+			blobs = append(blobs, g)
+		}
+		for i, g := range blobs {
+			back, berr := mxj.NewMapGob(g)
+			if berr != nil || !deepEq(map[string]interface{}(back), map[string]interface{}(ms[i])) {
+				notes = append(notes, fmt.Sprintf("GOBLIST NewMapGob of the kept encoding of Map %d differs from the Map after later Gob() calls", i))
+				break
+			}
+		}
 		return "ok | " + strings.Join(notes, "; ")
 	}
 	if err != nil {
